@@ -469,6 +469,9 @@ pub enum Mut {
     Truncate(u16),
     Duplicate(u16, u8),
     ReplaceNumber(u8, u8),
+    /// replace (insert = false) or insert one character inside the n-th `"mappings":"…"` /
+    /// `"rangeMappings":"…"` string: keeps the JSON intact, so the decoder logic is reached
+    MapChar { nth: u8, at: u16, ch: u8, insert: bool },
 }
 
 pub const DICT: &[&str] = &[
@@ -556,6 +559,34 @@ fn apply_muts(mut b: Vec<u8>, muts: &[Mut]) -> Vec<u8> {
                     b.splice(e..e, chunk);
                 }
             }
+            Mut::MapChar { nth, at, ch, insert } => {
+                const SET: &[u8] = b"ABCDEFGgIQhw,;,;/+9z0!=- ";
+                let mut spans = vec![];
+                for key in [&b"appings\":\""[..]] {
+                    let mut i = 0;
+                    while i + key.len() <= b.len() {
+                        if &b[i..i + key.len()] == key {
+                            let s = i + key.len();
+                            let e = b[s..].iter().position(|c| *c == b'"').map(|p| s + p).unwrap_or(b.len());
+                            spans.push((s, e));
+                            i = e;
+                        } else {
+                            i += 1;
+                        }
+                    }
+                }
+                if !spans.is_empty() {
+                    let (s, e) = spans[*nth as usize % spans.len()];
+                    let c = SET[*ch as usize % SET.len()];
+                    if *insert || e == s {
+                        let i = s + idx16(*at, e - s + 1);
+                        b.insert(i, c);
+                    } else {
+                        let i = s + idx16(*at, e - s);
+                        b[i] = c;
+                    }
+                }
+            }
             Mut::ReplaceNumber(nth, with) => {
                 // find the nth run of ASCII digits outside of... anywhere; replace by an edge number
                 let mut runs = vec![];
@@ -608,6 +639,7 @@ fn mut_strategy() -> BoxedStrategy<Mut> {
         1 => any::<u16>().prop_map(Mut::Truncate),
         1 => (any::<u16>(), any::<u8>()).prop_map(|(p, n)| Mut::Duplicate(p, n)),
         4 => (any::<u8>(), any::<u8>()).prop_map(|(n, w)| Mut::ReplaceNumber(n, w)),
+        8 => (any::<u8>(), any::<u16>(), any::<u8>(), any::<bool>()).prop_map(|(nth, at, ch, insert)| Mut::MapChar { nth, at, ch, insert }),
     ]
     .boxed()
 }
@@ -883,6 +915,18 @@ fn structured(t: Tier) -> BoxedStrategy<Case> {
         1 => mm_strategy(p).prop_map(|m| Base::Any(MAny::Regular(m))),
         1 => hermes_strategy(p).prop_map(|h| Base::Any(MAny::Hermes(h))),
         1 => index_strategy(MMParams { max_tokens: 12, ..p }, 2).prop_map(|i| Base::Any(MAny::Index(i))),
+        // valid index maps whose section offsets sit at the edges of u32 (flatten / lookup arithmetic)
+        2 => (index_strategy(MMParams { max_tokens: 10, big_lines: false, ..p }, 1), vec((any::<u16>(), proptest::sample::select(EDGE_U32), proptest::sample::select(EDGE_U32), any::<bool>()), 1..3))
+            .prop_map(|(mut i, edits)| {
+                i.via_api = false;
+                for (sel, l, c, line_only) in edits {
+                    if !i.sections.is_empty() {
+                        let k = idx16(sel, i.sections.len());
+                        i.sections[k].off = if line_only { (l, i.sections[k].off.1) } else { (l, c) };
+                    }
+                }
+                Base::Any(MAny::Index(i))
+            }),
         1 => (1usize..140).prop_map(|n| Base::Bytes(deep_sections(n).into_bytes())),
     ]
     .prop_map(|base| Case { base, muts: vec![] })
